@@ -449,7 +449,7 @@ class Abs:
                 return a * b
             if isinstance(op, ast.Mod):
                 if isinstance(a, str):
-                    return "<formatted>"
+                    return self._format(a, b)
                 return a % b
             if isinstance(op, ast.Div):
                 return a / b
@@ -464,6 +464,61 @@ class Abs:
         except (ValueError, ZeroDivisionError, OverflowError) as e:
             raise Raised("%s(%s)" % (type(e).__name__, e))
         raise Undecided("binary operator %s" % type(op).__name__)
+
+    def _text(self, v):
+        """str(v) for the values whose text form the interpreter can stand behind, else None"""
+        if isinstance(v, bool) or v is None or isinstance(v, (int, float, str)):
+            return str(v)
+        if type(v).__name__ == "Rat":
+            from .algebra import pystr
+            return pystr(v)
+        if isinstance(v, Tok) and v.kind in ("sym", "usym"):
+            return v.label
+        if isinstance(v, Obj) and "__str__" in v.attrs:
+            return v.attrs["__str__"]
+        return None
+
+    def _format(self, fmt, arg):
+        """'...%s...' % values, computed for real when every value has a known text form (code that builds source text and evaluates
+        it again); an opaque marker otherwise (messages)"""
+        vals = list(arg) if isinstance(arg, tuple) else [arg]
+        texts = [self._text(v) for v in vals]
+        if any(t is None for t in texts) or "%(" in fmt:
+            return "<formatted>"
+        try:
+            import re as _re
+            specs = _re.findall(r"%[-#0 +]*\d*(?:\.\d+)?[sdrfgeiG%]", fmt)
+            conv = []
+            k = 0
+            for sp in specs:
+                if sp == "%%":
+                    continue
+                v = vals[k]
+                conv.append(texts[k] if sp[-1] in "sr" else v)
+                k += 1
+            return fmt % tuple(conv)
+        except (TypeError, ValueError, IndexError):
+            return "<formatted>"
+
+    def _run_source(self, text, mode, env=None):
+        """exec / eval of source text built by the analysed code, in the current local namespace"""
+        if not isinstance(text, str) or "<formatted>" in text:
+            raise Undecided("exec/eval of text the interpreter could not reconstruct")
+        try:
+            tree = ast.parse(text.strip(), mode="eval" if mode == "eval" else "exec")
+        except SyntaxError as ex:
+            raise Raised("SyntaxError(%s)" % ex)
+        if env is not None:
+            saved = self.env
+            self.env = dict(env)
+            try:
+                return self.ev(tree.body) if mode == "eval" else self.run(tree.body)
+            finally:
+                self.env = saved
+        if mode == "eval":
+            return self.ev(tree.body)
+        self.run(tree.body)
+        return None
 
     def getattr(self, base, attr, node=None):
         if isinstance(base, Obj):
@@ -522,6 +577,24 @@ class Abs:
             return Tok("%s.%s" % (base.label, attr))
         if type(base).__name__ == "Rat":
             from .algebra import sym as _sym
+            if attr in ("is_real", "is_Symbol", "is_number"):
+                return {"is_real": True, "is_Symbol": len(base.num) == 1 and base.den == {(): 1} and list(base.num.values()) == [1] and len(list(base.num)[0]) == 1 and list(base.num)[0][0][1] == 1,
+                        "is_number": base.is_const()}[attr]
+            if attr == "subs":
+                from .algebra import substitute as _subst
+
+                def subs(*a, **k):
+                    pairs = list(a[0].items()) if len(a) == 1 and isinstance(a[0], dict) else [a[:2]] if len(a) == 2 else list(a[0]) if len(a) == 1 else None
+                    if pairs is None:
+                        raise Undecided("form of subs()")
+                    out = base
+                    for key, val in pairs:
+                        nm = key if isinstance(key, str) else key.label if isinstance(key, Tok) else self._text(key)
+                        if isinstance(val, Tok):
+                            val = _sym(val.label)
+                        out = _subst(out, nm, val)
+                    return out
+                return ("py", subs)
             if attr in ("atoms", "free_symbols", "has", "subs", "expand", "simplify"):
                 syms = [_sym(a[1]) for a in base.atoms() if a[0] == "sym"]
                 if attr == "free_symbols":
@@ -603,6 +676,15 @@ class Abs:
             if not args:
                 return dict(kw)
             return {self._key(k): v for k, v in (args[0].items() if isinstance(args[0], dict) else args[0])}
+        if dn == "exec" and dn not in self.summaries and 1 <= len(args) <= 3:
+            self._run_source(args[0], "exec", args[2] if len(args) == 3 else args[1] if len(args) == 2 and isinstance(args[1], dict) else None)
+            return None
+        if dn == "eval" and dn not in self.summaries and 1 <= len(args) <= 3:
+            return self._run_source(args[0], "eval", args[2] if len(args) == 3 else args[1] if len(args) == 2 and isinstance(args[1], dict) else None)
+        if dn == "locals" and not args:
+            return dict(self.env)
+        if dn == "str" and args and type(args[0]).__name__ == "Rat":
+            return self._text(args[0])
         if dn == "str":
             v = args[0]
             if isinstance(v, Tok) and v.kind in ("sym", "usym"):
